@@ -62,7 +62,7 @@ def run_impl(ctx, tier=None):
 
 
 KINDS = {"eqint": 0, "eqstr": 1, "ordint": 2, "ordstr": 3, "cmeq": 4, "cmord": 5, "fromeq": 6, "fromord": 7, "sgfrom": 8,
-         "monfrom": 9, "monfromop": 10, "cmfromeq": 11, "cmfromord": 12}
+         "monfrom": 9, "monfromop": 10, "cmfromeq": 11, "cmfromord": 12, "fromorddist": 13, "cmfromorddist": 14, "monslice": 15}
 
 
 def to_coq(c):
